@@ -244,6 +244,9 @@ func runEval(c J) J {
 		style = toInt(s)
 	}
 	via, _ := c["via"].(string)
+	if c["big"] == true {
+		via = "ast" // programs at the limit of the VM's encoding: 50 000 characters take the lexer a minute
+	}
 	tenv, venv := envFromJ(arr(c["env"]))
 	obs := J{}
 
